@@ -120,10 +120,23 @@ def run(repo: Repo, rep: Report) -> None:
              "append/__iadd__ end every normal path with add((end, rdf:rest, rdf:nil)) after the last rdf:first they "
              "add; clear removes rdf:first and rdf:rest of each visited cell; __delitem__ pairs each cell deletion "
              "with a relink of the predecessor", floor=5)
+    def _worker(f0):
+        """the method that writes the new cell: f0 itself, or the Collection method it hands each item to (`self._append(end, item)`)"""
+        def has_first(fn):
+            return any(isinstance(c, ast.Call) and isinstance(c.func, ast.Attribute) and c.func.attr in ("add", "set") and c.args and isinstance(c.args[0], ast.Tuple)
+                       and len(c.args[0].elts) == 3 and isinstance(c.args[0].elts[1], ast.Attribute) and c.args[0].elts[1].attr == "first" for c in own_nodes(fn))
+        if has_first(f0):
+            return f0
+        for c in own_nodes(f0):
+            if isinstance(c, ast.Call) and isinstance(c.func, ast.Attribute) and isinstance(c.func.value, ast.Name) and c.func.value.id == "self" and c.func.attr in methods and has_first(methods[c.func.attr]):
+                return methods[c.func.attr]
+        return f0
+
     for m in ("append", "__iadd__"):
         f = methods.get(m)
         if f is None:
             raise AnalysisError("Collection.%s vanished" % m)
+        f = _worker(f)
         al = _graph_aliases(f)
         g = CFG(f)
         nil_adds = set()
@@ -355,14 +368,30 @@ def run(repo: Repo, rep: Report) -> None:  # noqa: F811
              "append and __iadd__ decide whether the end cell already holds a member by asking the graph (`(end, rdf:first, None) in graph`) for the cell they are about to fill, "
              "at the point of filling it: inside __iadd__'s loop, once per item. A flag computed before the loop (`the end cell is the head of an empty list`) is wrong for the "
              "one-member list, whose end cell is the head too, and stale after the first item", floor=2)
+    def _first_adds(fn):
+        return [c for c in own_nodes(fn) if isinstance(c, ast.Call) and isinstance(c.func, ast.Attribute) and c.func.attr in ("add", "set") and c.args and isinstance(c.args[0], ast.Tuple)
+                and len(c.args[0].elts) == 3 and norm(c.args[0].elts[1]).endswith("RDF.first")]
+
     for name in ("append", "__iadd__"):
         f = m[name]
-        adds = [c for c in own_nodes(f) if isinstance(c, ast.Call) and isinstance(c.func, ast.Attribute) and c.func.attr in ("add", "set") and c.args and isinstance(c.args[0], ast.Tuple)
-                and len(c.args[0].elts) == 3 and norm(c.args[0].elts[1]).endswith("RDF.first")]
+        adds = _first_adds(f)
         if not adds:
-            raise AnalysisError("Collection.%s adds no rdf:first" % name)
+            # the cell is written by a helper that is handed each item: the helper is judged, and in __iadd__ it has to be called once per item (inside the loop)
+            calls = [c for c in own_nodes(f) if isinstance(c, ast.Call) and isinstance(c.func, ast.Attribute) and norm(c.func.value) == "self" and c.func.attr in m and _first_adds(m[c.func.attr])]
+            if not calls:
+                raise AnalysisError("Collection.%s adds no rdf:first" % name)
+            if name == "__iadd__":
+                per_item = all(any(isinstance(p_, (ast.For, ast.While)) for p_ in col.parents(c) if p_ is not f) for c in calls)
+                rep.ob("C19.j-cell-occupancy-is-read-from-the-graph", col, "Collection." + name, calls[0], per_item,
+                       "the cell-writing helper is called once per item" if per_item else "the cell-writing helper is not called inside the loop over the items", node=calls[0])
+            f = m[calls[0].func.attr]
+            adds = _first_adds(f)
         for a in adds:
             cell = norm(a.args[0].elts[0])
+            fresh = isinstance(a.args[0].elts[0], ast.Name) and any(isinstance(x, ast.Assign) and norm(x.targets[0]) == cell and isinstance(x.value, ast.Call) and norm(x.value.func) == "BNode" for x in own_nodes(f))
+            if fresh:
+                rep.ob("C19.j-cell-occupancy-is-read-from-the-graph", col, "Collection." + name, a, True, "a cell made for this item (a new BNode): it holds no member yet", node=a)
+                continue
             # the nearest enclosing loop (or the function) must contain, before the add, an If whose test is a membership test on (cell, RDF.first, None)
             scope = f
             for p_ in col.parents(a):
@@ -391,7 +420,13 @@ def run(repo: Repo, rep: Report) -> None:  # noqa: F811
              "Collection.__iadd__ (1) materialises its iterable (list(other) / tuple(other)) before the first change to the graph - the argument may be a lazy view of this very "
              "list (`c += c`, `c += (x for x in c)`), and appending while walking it never ends; (2) returns before touching the graph when there is nothing to add - it detaches "
              "the rdf:nil terminator first and re-attaches it at the end, which on an empty list would leave a head cell with rdf:rest but no rdf:first", floor=2)
-    muts = [c for c in own_nodes(f) if isinstance(c, ast.Call) and isinstance(c.func, ast.Attribute) and c.func.attr in ("add", "remove", "set") and "graph" in norm(c.func.value)]
+    _meths = col.methods("Collection")
+
+    def _mutates(fn):
+        return any(isinstance(c, ast.Call) and isinstance(c.func, ast.Attribute) and c.func.attr in ("add", "remove", "set") and "graph" in norm(c.func.value) for c in own_nodes(fn))
+    muts = [c for c in own_nodes(f) if isinstance(c, ast.Call) and isinstance(c.func, ast.Attribute) and (
+        c.func.attr in ("add", "remove", "set") and "graph" in norm(c.func.value)
+        or norm(c.func.value) == "self" and c.func.attr in _meths and _mutates(_meths[c.func.attr]))]
     if not muts:
         raise AnalysisError("Collection.__iadd__: no graph mutation found")
     first_mut = min(c.lineno for c in muts)
@@ -403,8 +438,12 @@ def run(repo: Repo, rep: Report) -> None:  # noqa: F811
            "materialised before the first graph change" if ok1 else "the loop walks the argument itself while cells are appended: `c += c` does not terminate", node=mat[0] if mat else (loops_[0] if loops_ else f))
     early = [n for n in own_nodes(f) if isinstance(n, ast.If) and n.lineno < first_mut and isinstance(n.test, ast.UnaryOp) and isinstance(n.test.op, ast.Not) and norm(n.test.operand) in (src, par)
              and any(isinstance(r, ast.Return) for r in n.body)]
-    rep.ob("C19.k-iadd-works-on-a-materialised-nonempty-input", col, "Collection.__iadd__", early[0].test if early else "if not <items>: return self", bool(early),
-           "nothing to add: the graph is left alone" if early else "with an empty argument the terminator is detached and re-attached anyway: on an empty list `c += []` leaves (head rdf:rest rdf:nil) without rdf:first, after which c[0] raises KeyError", node=early[0] if early else f)
+    # (nothing to guard if every change to the graph is made inside the loop over the items: no item, no change)
+    outside = [c for c in muts if not any(isinstance(p_, (ast.For, ast.While)) and norm(getattr(p_, "iter", p_)) == src for p_ in col.parents(c) if p_ is not f)]
+    no_change_without_items = not early and not outside and bool(loops_)
+    shown = early[0].test if early else ("every change is made per item, in `for .. in %s`" % src if no_change_without_items else "if not <items>: return self")
+    rep.ob("C19.k-iadd-works-on-a-materialised-nonempty-input", col, "Collection.__iadd__", shown, bool(early) or no_change_without_items,
+           "nothing to add: the graph is left alone" if (early or no_change_without_items) else "with an empty argument the terminator is detached and re-attached anyway: on an empty list `c += []` leaves (head rdf:rest rdf:nil) without rdf:first, after which c[0] raises KeyError", node=early[0] if early else (loops_[0] if no_change_without_items else f))
 
 
 _run_base4 = run
